@@ -328,7 +328,8 @@ def rand_command(rng, sess):
         return None if r < 0.04 else ("nosuch" if r < 0.12 else x)
     tos = [b["id"] for b in cfg["boards"] if b["uid"][0] & 0x10]
     def to(): return bad_or(rng.choice(tos) if tos and rng.random() < 0.85 else (rng.choice(boards) if boards else "nosuch"))
-    kind = rng.choice(["point", "signal", "periph", "speed", "speed", "cal", "estop", "fn", "fn", "booster", "tostate", "toall", "rev", "ping", "ident", "pver", "sver"])
+    if getattr(sess, "_fn_train", None) and sess._fn_train[1] > 0 and rng.random() < 0.6: kind = "fn"
+    else: kind = rng.choice(["point", "signal", "periph", "speed", "speed", "cal", "estop", "fn", "fn", "booster", "tostate", "toall", "rev", "ping", "ident", "pver", "sver"])
     if kind in ("point", "signal"):
         pool = (ent["pb"] + ent["pd"]) if kind == "point" else (ent["sb"] + ent["sd"])
         other = (ent["sb"] + ent["sd"]) if kind == "point" else (ent["pb"] + ent["pd"])
@@ -350,6 +351,10 @@ def rand_command(rng, sess):
         return "bidib_set_calibrated_train_speed", [tid, to()], rng.choice([-10, -9, -1, 0, 1, 5, 9, 10])
     if kind == "estop": return "bidib_emergency_stop_train", [tid, to()], 0
     if kind == "fn":
+        # stay with one train for a while: function bits of a group depend on the history of the whole group
+        st = getattr(sess, "_fn_train", None)
+        if st and st[1] > 0 and rng.random() < 0.9: tr = st[0]; sess._fn_train = (tr, st[1] - 1); tid = tr["id"]
+        elif tr and tr.get("per"): sess._fn_train = (tr, rng.choice([2, 4, 6]))
         p = rng.choice(tr["per"])["id"] if tr and tr.get("per") and rng.random() < 0.9 else "nosuch"
         return "bidib_set_train_peripheral", [tid, bad_or(p), to()], rng.choice([0, 1, 1, 1, 2])
     b = bad_or(rng.choice(boards)) if boards else "nosuch"
